@@ -767,9 +767,10 @@ func c02Replay(fn *irFunc, model string, opts *Options) (map[string]interface{},
 	out, err := exec.Command("lli-14", llFile).CombinedOutput()
 	got := strings.TrimSpace(string(out))
 	doc["emitted_code_result"] = got
-	if err != nil && got == "" {
-		doc["lli_error"] = err.Error()
-		return doc, false
+	if err != nil {
+		// the emitted code crashed (e.g. SIGFPE on an undefined division)
+		got = "CRASH(" + err.Error() + ") " + got
+		doc["emitted_code_result"] = got
 	}
 	// --- the same expression under the host Go toolchain (the reference semantics)
 	var expr string
